@@ -462,6 +462,15 @@ func (m *Manager) TerminateSession(ctx context.Context, sessionID string, reason
 		return fmt.Errorf("session not found: %s", sessionID)
 	}
 
+	if session.State == StateTerminating {
+		// Another caller is already terminating this session (it is removed
+		// from the table when that completes); terminating it a second time
+		// would release its addresses twice, possibly after they were given
+		// to a new session
+		m.mu.Unlock()
+		return nil
+	}
+
 	oldState := session.State
 	session.State = StateTerminating
 	session.StateReason = string(reason)
